@@ -17,9 +17,25 @@ NA = {
     "C14": "pure function of one code object (iteration enumerates nested code; the generators read only immutable data, so even interleaving two iterations cannot matter)",
 }
 
-PENDING = {k: "claimed in DESIGN.md; check under construction in this session (not yet registered)" for k in ["C06", "C07", "C08", "C11", "C15", "C16"]}
+PENDING = {k: "claimed in DESIGN.md; check under construction in this session (not yet registered)" for k in ["C07", "C11", "C15", "C16"]}
 
 CHECKS = {
+    "C06": {
+        "engine": "A-history-machine",
+        "category": "exploration",
+        "design_ref": "DESIGN.md sections 4.3 (F5), 4.6",
+        "technique": "deterministic simulation: seeded histories of code/JSON round trips and normalize over one program lineage, with serialization-artefact faults injected into the code object in transit (table permutations with operand renumbering, unreferenced entries, redundant EXTENDED_ARG, CO_NESTED, junk operand bytes; each gated by CPython's own dis/line reading) and benign transit shuffles of JSON text",
+        "text": "Seeded search over operation histories {normalize, code round trip, JSON round trip} of bounded length on real CPython 3.7-3.10, with artefact perturbations of the code object in transit and of the original; invariant after every step: the normalized state equals the lineage's first normal form (library ==). Sampling of histories and perturbations, not proof.",
+        "note": "Trusted: CPython's dis / co_lines / findlinestarts as the gate that a perturbed object is the same program; the harness's own bytecode reader/writer (sim/bytecode.py). A perturbed object that from_code refuses is counted inconclusive (C11 allows raising).",
+    },
+    "C08": {
+        "engine": "A-history-machine",
+        "category": "exploration",
+        "design_ref": "DESIGN.md sections 4.3 (F6, F7), 4.5",
+        "technique": "deterministic simulation: seeded construction routes (decode, normalize, code trip, JSON/pickle/marshal reload, recompile, leaf-by-leaf clone = identity loss; confusable twin programs) feeding a pool whose every pair and triple is checked against the value contract and a strict to_code() fingerprint partition; complete confusable-constant table cross-checked against CPython's _PyCode_ConstantKey",
+        "text": "Seeded search over routes by which equal (or confusably different) CodeData/Constant values come to exist in one process - where object identity of constants, the hidden state the hash/eq contract depends on, differs - on real CPython 3.7-3.10 under seeded hash seeds; every pair/triple in the pool is checked for hashability, equivalence-relation laws, equal=>equal-hash and set/dict behaviour, == versus the strict fingerprint of to_code(), and immutability. Sampling of routes and programs; the finite confusables table is enumerated completely.",
+        "note": "Trusted: strict fingerprints (sim/fp.py) as the reference partition, cross-checked on every constant pair against ctypes _PyCode_ConstantKey with NaNs interned (a disagreement is a harness error).",
+    },
     "C12": {
         "engine": "A-history-machine",
         "category": "exploration",
